@@ -14,12 +14,12 @@ CGF_RUNS = {"thorough": 10000}  # coverage-guided stage (vlib/cgf.py): libFuzzer
 RULE = (
     "A valid macro rule from the C13 factoring generator (>= 1 definition, in the file and/or extra macro files) receives one fault (kind drawn first): a reference to a "
     "fresh undefined @name inserted as list item, as operand, as $deref field value, as dict key with a times body, as dict key with an operand body, under $or / $not, or "
-    "inside the body of a macro that is listed before / after another macro, or spliced into a longer mnemonic/operand name (names include non-identifiers such as @64bit_, @8_); a reference to a macro that IS defined but is applied before its user (listed earlier, or from an extra file) - reported or expanded, never kept; a used definition deleted; a used definition moved to an extra file that is not passed; a "
+    "inside the body of a macro that is listed before / after another macro, or spliced into a longer mnemonic/operand name (names include non-identifiers such as @64bit_, @8_); a reference to a macro that IS defined but is applied before its user (listed earlier, or from an extra file) - reported or expanded, never kept; a cyclic definition (a body that mentions its own macro, or two that mention each other); a used definition deleted; a used definition moved to an extra file that is not passed; a "
     "macro renamed so that its name lacks '@'. Control group: no fault. Oracle: faulted rule => Yaml2Regex(...).produce_regex() raises and the message names the "
     "reference (for the no-@ case: raises); control => compiles and the regex contains no '@'. Non-trivial: distinct (fault kind, definition placement) cells; distinct by canonical hash."
 )
 ASSUMPTIONS = ["names and operand vocabularies are @-free by construction, so an '@' in the regex can only come from an unexpanded reference"]
-FAULTS = ["control", "control", "item", "operand", "deref-value", "key-times", "key-operands", "under-or", "under-not", "in-body-first", "in-body-last", "delete-def", "unpassed-file", "no-at-name", "alias-to-undefined", "shared-lib-second-rule", "in-name", "defined-but-applied-earlier"]
+FAULTS = ["control", "control", "item", "operand", "deref-value", "key-times", "key-operands", "under-or", "under-not", "in-body-first", "in-body-last", "delete-def", "unpassed-file", "no-at-name", "alias-to-undefined", "shared-lib-second-rule", "in-name", "defined-but-applied-earlier", "cyclic"]
 FLOORS = {f"fault={f}": 0.03 for f in set(FAULTS)}
 UNDEF = ["@zz_", "@undefined_", "@nope_", "@64bit_", "@8_", "@2nd-op_", "@Q.x_"]  # also names that are not identifiers
 
@@ -93,6 +93,22 @@ def cases(draw):
         body = {"item": {"$and": ["push", "@yearly_"]}, "operand": {"mov": ["rax", "@yearly_"]}, "key-times": {"$and": [{"@yearly_": {"times": 2}}, "ret"]}}[body_kind]
         factored.append("@yuser_")
         expect_name = "@yearly_"
+    elif fault == "cyclic":
+        # a macro whose body mentions itself, or two macros that mention each other: whatever expansion does, the reference
+        # that is left over has to be reported (or be gone) - it must not be kept as a mnemonic / operand
+        shape = draw(st.sampled_from(["self", "self-operand", "mutual"]))
+        if shape == "self":
+            cyc = [{"name": "@ycyc_", "pattern": [{"$or": ["nop", "@ycyc_"]}]}]
+        elif shape == "self-operand":
+            cyc = [{"name": "@ycyc_", "pattern": [{"mov": ["rax", "@ycyc_"]}]}]
+        else:
+            cyc = [{"name": "@ycyc_", "pattern": [{"$and": ["push", "@ycyd_"]}]}, {"name": "@ycyd_", "pattern": [{"$and": ["pop", "@ycyc_"]}]}]
+            if draw(st.booleans()):
+                cyc.reverse()
+        pos = draw(st.integers(0, len(macros)))
+        macros = macros[:pos] + cyc + macros[pos:]
+        factored.append("@ycyc_")
+        expect_name = None
     elif fault == "delete-def":
         k = draw(st.integers(0, len(macros) - 1))
         expect_name = macros[k]["name"]
@@ -179,6 +195,12 @@ def evaluate(case):
             ev.dev("valid-macro-rule-rejected", error=list(r[1:]))
         elif "@" in r[1]:
             ev.dev("at-sign-survives-in-regex", regex=r[1][:500])
+        return ev
+    if fault == "cyclic":
+        if r[0] == "ok" and "@" in r[1]:
+            ev.dev("reference-survives-in-regex", fault=fault, regex=r[1][:400])
+        elif r[0] != "ok" and "@ycy" not in r[2]:
+            ev.dev("error-does-not-name-the-reference", fault=fault, expected="@ycyc_ or @ycyd_", error=list(r[1:]))
         return ev
     if fault == "defined-but-applied-earlier":
         if r[0] == "ok" and "@" in r[1]:
